@@ -307,6 +307,11 @@ CORPUS = [
     [{"k": "src", "cfg": {"value": 1}}, {"k": "delete", "a": "factor"}, {"k": "mul"}],
     # create-and-require in one node
     [{"k": "src", "cfg": {"value": 1}}, {"k": "rename", "a": "k", "b": "k"}],
+    # a key renamed onto itself is gone afterwards: a later reader must be rejected (or the key re-created)
+    [{"k": "src", "cfg": {"value": 1}}, {"k": "rename", "a": "factor", "b": "factor"}, {"k": "mul"}],
+    [{"k": "src", "cfg": {"value": 1}}, {"k": "rename", "a": "m", "b": "m"}, {"k": "template", "segs": [("lit", "A"), ("hole", "m")], "out": "path"}],
+    [{"k": "src", "cfg": {"value": 1}}, {"k": "probe", "ckey": "factor"}, {"k": "rename", "a": "factor", "b": "factor"}, {"k": "mul"}],
+    [{"k": "src", "cfg": {"value": 1}}, {"k": "rename", "a": "factor", "b": "factor"}, {"k": "probe", "ckey": "factor"}, {"k": "mul"}],
     # recreate after delete
     [{"k": "src", "cfg": {"value": 1}}, {"k": "delete", "a": "k"}, {"k": "probe", "ckey": "k"}, {"k": "rename", "a": "k", "b": "factor"}, {"k": "mul"}],
 ]
@@ -361,6 +366,7 @@ def run(ck):
             dynamic_oracles(ck, nodes, rep, req, insp, rng, counters)
         else:
             counters["rejected_by_validation"] += 1
+    one_object_oracle(ck, [c[0] for c in cases if c[3]][: (120 if ck.tier == "thorough" else 25)], rng, counters)
     shard = 200
     texts = [HEADER % ";\n".join(case_text(*c) for c in cases[i:i + shard]) for i in range(0, len(cases), shard)]
     per, errs = core.mismatches("C02", texts, timeout=900)
@@ -389,9 +395,131 @@ def run(ck):
     ck.cov["trusted_base"] = TRUSTED
 
 
+# configurations outside the modelled library (direct oracle only): a context processor specialised through node parameters
+XS, YS = [1.0, 2.0, 3.0, 4.0], [2.0, 4.0, 6.0, 8.0]
+FIT = "model:PolynomialFittingModel:degree=1"
+EXTRA_CONFIGS = [
+    ("model-fit-mapped-variables",
+     [{"processor": "FloatValueDataSource", "parameters": {"value": 2.0}},
+      {"processor": "ModelFittingContextProcessor", "parameters": {"fitting_model": FIT, "independent_var_key": "xs", "dependent_var_key": "ys", "context_key": "fit_out"}},
+      {"processor": 'template:"fit={fit_out}":label'}], {"xs": XS, "ys": YS}),
+    ("model-fit-output-key-only",
+     [{"processor": "FloatValueDataSource", "parameters": {"value": 2.0}},
+      {"processor": "ModelFittingContextProcessor", "parameters": {"fitting_model": FIT, "context_key": "fit_out"}},
+      {"processor": "FloatCollectValueProbe", "context_key": "seen"}], {"x_values": XS, "y_values": YS}),
+    ("model-fit-defaults",
+     [{"processor": "FloatValueDataSource", "parameters": {"value": 2.0}},
+      {"processor": "ModelFittingContextProcessor", "parameters": {"fitting_model": FIT}}], {"x_values": XS, "y_values": YS}),
+    ("model-fit-mapped-then-delete",
+     [{"processor": "FloatValueDataSource", "parameters": {"value": 2.0}},
+      {"processor": "ModelFittingContextProcessor", "parameters": {"fitting_model": FIT, "independent_var_key": "xs", "dependent_var_key": "ys", "context_key": "fit_out"}},
+      {"processor": "delete:fit_out"}], {"xs": XS, "ys": YS}),
+]
+
+
+def _inspect_then_run(cfg, values, data0=None):
+    """inspect + validate `cfg`, then run THE SAME OBJECT with exactly the required keys.
+    -> None (rejected / not applicable) | (problem-signature, text)"""
+    import copy
+    from semantiva.context_processors import ContextType
+    from semantiva.inspection import build_pipeline_inspection, validate_pipeline
+    from semantiva.pipeline import Payload, Pipeline
+    ins = build_pipeline_inspection(cfg)
+    try:
+        validate_pipeline(ins)
+    except Exception:  # noqa
+        return None
+    required = sorted(ins.required_context_keys)
+    if any(k not in values for k in required):
+        return None
+    initial = {k: copy.deepcopy(values[k]) for k in required}
+    reported = set()
+    for n in ins.nodes:
+        reported |= set(n.created_keys)
+        reported -= set(n.suppressed_keys)
+    try:
+        res = Pipeline(cfg).process(Payload(pg.make_data(data0), ContextType(dict(initial))))
+    except Exception as ex:  # noqa
+        st, cls = pg.classify(ex)
+        if st in ("SResolve", "SGate") or cls == "InvalidNodeParameterError":
+            return ("accepted-but-fails-on-flow", "inspected and accepted, required keys %s supplied, the run of the same configuration object raises %s: %s" % (required, cls, str(ex)[:160]))
+        return None
+    appeared = set(res.context.to_dict()) - set(initial)
+    if appeared != reported - set(initial):
+        return ("reported-keys-differ-from-run", "inspection of the same configuration object reported created keys %s, the run made %s appear" % (sorted(reported), sorted(appeared)))
+    return None
+
+
+def one_object_oracle(ck, pipelines, rng, counters):
+    """A program that inspects its configuration and then runs it (what `semantiva run` does) hands ONE object to both."""
+    import copy
+    n = 0
+    for name, cfg, values in EXTRA_CONFIGS:
+        try:
+            fresh = _inspect_then_run_fresh(cfg, values)
+            got = _inspect_then_run(copy.deepcopy(cfg), values)
+        except Exception as ex:  # noqa
+            ck.corr_problem("one-object oracle could not run configuration %s" % name, repr(ex))
+            continue
+        n += 1
+        for tag, pr in (("fresh-copies", fresh), ("one-object", got)):
+            if pr is not None:
+                ck.fail_input("C02:%s:%s:%s" % (pr[0], tag, name), pr[1], {"kind": "one-object", "config": cfg, "values": values, "how": tag})
+    for nodes in pipelines:
+        t0 = first_data_type(nodes)
+        data0 = None if t0 is None else (3 if t0 == "F" else [1, 2])
+        values = {k: ([1, 2] if k in ("seq", "t_values") else ("p.txt" if k == "path" else 1)) for k in pg.KEYS + ["path", "divisor", "t_values"]}
+        try:
+            got = _inspect_then_run([pg.node_impl(x) for x in nodes], {k: pg.v_impl(v) for k, v in values.items()}, data0)
+        except Exception:  # noqa
+            continue
+        n += 1
+        if got is not None:
+            ck.fail_input("C02:%s:one-object:generated" % got[0], got[1], {"kind": "one-object-generated", "descriptors": nodes, "nodes": [pg.node_impl_repr(x) for x in nodes]})
+    counters["one_object_runs"] = n
+
+
+def _inspect_then_run_fresh(cfg, values):
+    """the same with independent deep copies for inspection and run (reference)"""
+    import copy
+    from semantiva.context_processors import ContextType
+    from semantiva.inspection import build_pipeline_inspection, validate_pipeline
+    from semantiva.pipeline import Payload, Pipeline
+    ins = build_pipeline_inspection(copy.deepcopy(cfg))
+    try:
+        validate_pipeline(ins)
+    except Exception:  # noqa
+        return None
+    required = sorted(ins.required_context_keys)
+    if any(k not in values for k in required):
+        return None
+    initial = {k: copy.deepcopy(values[k]) for k in required}
+    reported = set()
+    for n in ins.nodes:
+        reported |= set(n.created_keys)
+        reported -= set(n.suppressed_keys)
+    try:
+        res = Pipeline(copy.deepcopy(cfg)).process(Payload(None, ContextType(dict(initial))))
+    except Exception as ex:  # noqa
+        st, cls = pg.classify(ex)
+        if st in ("SResolve", "SGate") or cls == "InvalidNodeParameterError":
+            return ("accepted-but-fails-on-flow", "inspected and accepted, required keys %s supplied, the run raises %s: %s" % (required, cls, str(ex)[:160]))
+        return None
+    appeared = set(res.context.to_dict()) - set(initial)
+    if appeared != reported - set(initial):
+        return ("reported-keys-differ-from-run", "inspection reported created keys %s, the run made %s appear" % (sorted(reported), sorted(appeared)))
+    return None
+
+
 def replay(obj):
     r = obj["replay"]
     pg.setup_impl()
+    if r.get("kind") == "one-object":
+        import copy
+        pr = _inspect_then_run(copy.deepcopy(r["config"]), r["values"]) if r.get("how") == "one-object" else _inspect_then_run_fresh(r["config"], r["values"])
+        print("configuration:", json.dumps(r["config"]))
+        print("now:", pr)
+        return 1 if pr else 0
     rep, req, valid, insp = impl_report(r["descriptors"])
     print("nodes:", json.dumps(r["nodes"]))
     print("inspection: valid=%s required=%s" % (valid, req))
